@@ -29,8 +29,16 @@ def points():
     for f in FILES:
         lines = open(os.path.join(REPO, f)).read().split("\n")
         in_generic = 0
+        in_hook = False
         for ln, line in enumerate(lines):
             t = line.strip()
+            if "cfg(minimal_lexical_verif)" in line:
+                in_hook = True
+                continue
+            if in_hook:
+                if t.endswith(");") or t.endswith(";"):
+                    in_hook = False
+                continue
             if not t or t.startswith("//") or t.startswith("#") or t.startswith("use ") or "verif" in line or "debug_assert" in line or t.startswith("pub mod") or t.startswith("///"):
                 continue
             code = line.split("//")[0]
@@ -63,7 +71,16 @@ def points():
 
 
 def sh(cmd, cwd=None, timeout=900):
-    return subprocess.run(cmd, shell=True, cwd=cwd, stdout=subprocess.PIPE, stderr=subprocess.STDOUT, text=True, timeout=timeout)
+    # own process group, so that a mutant whose tests loop forever is killed together with its children
+    import signal
+    p = subprocess.Popen(cmd, shell=True, cwd=cwd, stdout=subprocess.PIPE, stderr=subprocess.STDOUT, text=True, start_new_session=True)
+    try:
+        out, _ = p.communicate(timeout=timeout)
+    except subprocess.TimeoutExpired:
+        os.killpg(p.pid, signal.SIGKILL)
+        p.communicate()
+        raise
+    return subprocess.CompletedProcess(cmd, p.returncode, out, None)
 
 
 def try_one(p, wt, outdir):
